@@ -370,64 +370,66 @@ theorem flt_requestsPollNext (now : Nat) : ∀ (fuel : Nat) (s : St), Flt p s (r
 end
 /-! ### the other ops -/
 
-/-- a class of observations that contains none of the kinds the execution-side ops and the external events
-emit (wake-ups, handler events, `ret` of an execution, `noop`, `took`) -/
-structure ExecQuiet (p : Obs → Bool) : Prop where
+/-- a class of observations that contains none of: wake-ups, `noop`, `took` -/
+structure WakeQuiet (p : Obs → Bool) : Prop where
   wake : ∀ t, p (.wake t) = false
-  handler : ∀ r ev t, p (.handler r ev t) = false
-  retExec : ∀ v r, p (.ret (.exec v) r) = false
   noop : p .noop = false
   took : ∀ ep m, p (.took ep m) = false
 
-section
-variable {p : Obs → Bool} (hq : ExecQuiet p)
-include hq
+/-- … nor the `ret` of an execution -/
+structure SendQuiet (p : Obs → Bool) : Prop extends WakeQuiet p where
+  retExec : ∀ v r, p (.ret (.exec v) r) = false
 
-theorem fx_wakeServer (s : St) : (wakeServer s).obs.filter p = s.obs.filter p := by
+/-- … nor any handler event: none of the kinds the execution-side ops and the external events emit -/
+structure ExecQuiet (p : Obs → Bool) : Prop extends SendQuiet p where
+  handler : ∀ r ev t, p (.handler r ev t) = false
+
+section
+variable {p : Obs → Bool}
+
+theorem fx_wakeServer (hq : WakeQuiet p) (s : St) : (wakeServer s).obs.filter p = s.obs.filter p := by
   unfold wakeServer; split <;> simp [Server.emit, hq.wake]
 
-theorem fx_wakeExec (s : St) (r : Nat) : (wakeExec s r).obs.filter p = s.obs.filter p := by
+theorem fx_wakeExec (hq : WakeQuiet p) (s : St) (r : Nat) : (wakeExec s r).obs.filter p = s.obs.filter p := by
   unfold wakeExec; (repeat' split) <;> simp [Server.emit, Server.updExec, hq.wake]
 
-theorem fx_abortExec (s : St) (r : Nat) : (abortExec s r).obs.filter p = s.obs.filter p := by
+theorem fx_abortExec (hq : WakeQuiet p) (s : St) (r : Nat) : (abortExec s r).obs.filter p = s.obs.filter p := by
   unfold abortExec; (repeat' split) <;> simp [Server.emit, Server.updExec, fx_wakeExec hq]
 
-theorem fx_rqRelease (s : St) : (rqRelease s).obs.filter p = s.obs.filter p := by
+theorem fx_rqRelease (hq : WakeQuiet p) (s : St) : (rqRelease s).obs.filter p = s.obs.filter p := by
   unfold rqRelease; split <;> simp [fx_wakeExec hq]
 
-macro "fx_tac" hq:ident : tactic =>
-  `(tactic| ((repeat' split) <;>
-      (try simp [Server.emit, Server.updExec, ExecQuiet.wake $hq, ExecQuiet.handler $hq, ExecQuiet.retExec $hq,
-        ExecQuiet.noop $hq, fx_wakeServer $hq, fx_wakeExec $hq, fx_rqRelease $hq]) <;> (repeat' split) <;>
-      (try simp [Server.emit, Server.updExec, ExecQuiet.wake $hq, ExecQuiet.handler $hq, ExecQuiet.retExec $hq,
-        ExecQuiet.noop $hq, fx_wakeServer $hq, fx_wakeExec $hq, fx_rqRelease $hq])))
+theorem fx_guardDrop (hq : WakeQuiet p) (s : St) (e : Exec) : (guardDrop s e).obs.filter p = s.obs.filter p := by
+  unfold guardDrop
+  (repeat' split) <;> (try simp [fx_wakeServer hq]) <;> (repeat' split) <;> (try simp [fx_wakeServer hq])
 
-theorem fx_guardDrop (s : St) (e : Exec) : (guardDrop s e).obs.filter p = s.obs.filter p := by
-  unfold guardDrop; fx_tac hq
-
-theorem fx_queueAndFinish (s : St) (e : Exec) (res : Res) (n : Nat) :
+theorem fx_queueAndFinish (hq : SendQuiet p) (s : St) (e : Exec) (res : Res) (n : Nat) :
     (queueAndFinish s e res n).obs.filter p = s.obs.filter p := by
-  unfold queueAndFinish; fx_tac hq
+  unfold queueAndFinish
+  (repeat' split) <;> (try simp [Server.emit, Server.updExec, hq.retExec, fx_wakeServer hq.toWakeQuiet]) <;>
+    (repeat' split) <;> (try simp [Server.emit, Server.updExec, hq.retExec, fx_wakeServer hq.toWakeQuiet])
 
-theorem fx_trySend (s : St) (e : Exec) (res : Res) (n : Nat) : (trySend s e res n).obs.filter p = s.obs.filter p := by
+theorem fx_trySend (hq : SendQuiet p) (s : St) (e : Exec) (res : Res) (n : Nat) :
+    (trySend s e res n).obs.filter p = s.obs.filter p := by
   unfold trySend
   (repeat' split) <;> simp [fx_queueAndFinish hq, Server.emit, Server.updExec, hq.retExec]
 
-theorem fx_pollExec (s : St) (vid n : Nat) : (pollExec s vid n).obs.filter p = s.obs.filter p := by
+theorem fx_pollExec (hq : ExecQuiet p) (s : St) (vid n : Nat) : (pollExec s vid n).obs.filter p = s.obs.filter p := by
   unfold pollExec
-  (repeat' split) <;> (try simp [fx_trySend hq, fx_rqRelease hq, Server.emit, Server.updExec, hq.retExec, hq.handler, hq.noop]) <;>
-    (repeat' split) <;> (try simp [fx_trySend hq, fx_rqRelease hq, Server.emit, Server.updExec, hq.retExec, hq.handler, hq.noop])
+  (repeat' split) <;> (try simp [fx_trySend hq.toSendQuiet, fx_rqRelease hq.toWakeQuiet, Server.emit, Server.updExec, hq.retExec, hq.handler, hq.noop]) <;>
+    (repeat' split) <;> (try simp [fx_trySend hq.toSendQuiet, fx_rqRelease hq.toWakeQuiet, Server.emit, Server.updExec, hq.retExec, hq.handler, hq.noop])
 
-theorem fx_dropExec (s : St) (vid n : Nat) : (dropExec s vid n).obs.filter p = s.obs.filter p := by
+theorem fx_dropExec (hq : ExecQuiet p) (s : St) (vid n : Nat) : (dropExec s vid n).obs.filter p = s.obs.filter p := by
   unfold dropExec
-  (repeat' split) <;> (try simp [fx_guardDrop hq, fx_rqRelease hq, Server.emit, Server.updExec, hq.handler, hq.noop]) <;>
-    (repeat' split) <;> (try simp [fx_guardDrop hq, fx_rqRelease hq, Server.emit, Server.updExec, hq.handler, hq.noop])
+  (repeat' split) <;> (try simp [fx_guardDrop hq.toWakeQuiet, fx_rqRelease hq.toWakeQuiet, Server.emit, Server.updExec, hq.handler, hq.noop]) <;>
+    (repeat' split) <;> (try simp [fx_guardDrop hq.toWakeQuiet, fx_rqRelease hq.toWakeQuiet, Server.emit, Server.updExec, hq.handler, hq.noop])
 
-theorem fx_finishHandler (s : St) (vid : Nat) (res : Res) : (finishHandler s vid res).obs.filter p = s.obs.filter p := by
+theorem fx_finishHandler (hq : WakeQuiet p) (s : St) (vid : Nat) (res : Res) :
+    (finishHandler s vid res).obs.filter p = s.obs.filter p := by
   unfold finishHandler
   (repeat' split) <;> (try simp [fx_wakeExec hq, Server.emit, Server.updExec, hq.noop])
 
-theorem fx_dropServer (s : St) : (dropServer s).obs.filter p = s.obs.filter p := by
+theorem fx_dropServer (hq : WakeQuiet p) (s : St) : (dropServer s).obs.filter p = s.obs.filter p := by
   unfold dropServer
   split
   · simp [Server.emit, hq.noop]
@@ -436,26 +438,27 @@ theorem fx_dropServer (s : St) : (dropServer s).obs.filter p = s.obs.filter p :=
     simp only
     rw [foldl_abortExec_frame (fun s => s.obs.filter p) (fun s r => fx_abortExec hq s r)]
 
-theorem fx_liftT (s : St) (r : SimT × Bool) : (liftT s r).obs.filter p = s.obs.filter p := by
+theorem fx_liftT (hq : WakeQuiet p) (s : St) (r : SimT × Bool) : (liftT s r).obs.filter p = s.obs.filter p := by
   unfold liftT; simp only; split <;> simp [fx_wakeServer hq]
 
-theorem fx_onAdvance (s : St) (n : Nat) : (onAdvance s n).obs.filter p = s.obs.filter p := by
+theorem fx_onAdvance (hq : WakeQuiet p) (s : St) (n : Nat) : (onAdvance s n).obs.filter p = s.obs.filter p := by
   unfold onAdvance; (repeat' split) <;> simp [fx_wakeServer hq]
 
-theorem fx_took (ms : List Msg) (s : St) :
+theorem fx_took (hq : WakeQuiet p) (ms : List Msg) (s : St) :
     (ms.foldl (fun s m => Server.emit s (.took (tid s) m)) s).obs.filter p = s.obs.filter p := by
   induction ms generalizing s with
   | nil => rfl
   | cons m ms ih => simp only [List.foldl_cons]; rw [ih]; simp [Server.emit, hq.took]
 
-/-- every op but `pollServer` emits no observation of an exec-quiet class -/
-theorem fx_applyOp (c : Sys) (op : SOp) (hop : op ≠ .pollServer) :
+/-- every op but `pollServer`, `pollExec`, `dropExec` emits no observation of a wake-quiet class -/
+theorem fx_applyOp_wake (hq : WakeQuiet p) (c : Sys) (op : SOp) (hop : op ≠ .pollServer)
+    (h1 : ∀ v, op ≠ .pollExec v) (h2 : ∀ v, op ≠ .dropExec v) :
     (applyOp c op).s.obs.filter p = c.s.obs.filter p := by
   cases op with
   | pollServer => exact absurd rfl hop
   | dropServer => exact fx_dropServer hq _
-  | pollExec r => exact fx_pollExec hq _ _ _
-  | dropExec r => exact fx_dropExec hq _ _ _
+  | pollExec r => exact absurd rfl (h1 r)
+  | dropExec r => exact absurd rfl (h2 r)
   | finish r res => exact fx_finishHandler hq _ _ _
   | injectReq id d tr b => exact fx_liftT hq _ _
   | injectCancel id tr => exact fx_liftT hq _ _
@@ -468,6 +471,27 @@ theorem fx_applyOp (c : Sys) (op : SOp) (hop : op ≠ .pollServer) :
   | selfWake b => rfl
   | take n => exact fx_took hq _ _
   | advance n => exact fx_onAdvance hq _ _
+
+/-- every op but `pollServer` emits no observation of an exec-quiet class -/
+theorem fx_applyOp (hq : ExecQuiet p) (c : Sys) (op : SOp) (hop : op ≠ .pollServer) :
+    (applyOp c op).s.obs.filter p = c.s.obs.filter p := by
+  cases op with
+  | pollExec r => exact fx_pollExec hq _ _ _
+  | dropExec r => exact fx_dropExec hq _ _ _
+  | pollServer => exact absurd rfl hop
+  | dropServer => exact fx_dropServer hq.toWakeQuiet _
+  | finish r res => exact fx_finishHandler hq.toWakeQuiet _ _ _
+  | injectReq id d tr b => exact fx_liftT hq.toWakeQuiet _ _
+  | injectCancel id tr => exact fx_liftT hq.toWakeQuiet _ _
+  | injectErr => exact fx_liftT hq.toWakeQuiet _ _
+  | eof => exact fx_liftT hq.toWakeQuiet _ _
+  | setReady b => exact fx_liftT hq.toWakeQuiet _ _
+  | setFlush b => exact fx_liftT hq.toWakeQuiet _ _
+  | fault k => rfl
+  | faultSkip n => rfl
+  | selfWake b => rfl
+  | take n => exact fx_took hq.toWakeQuiet _ _
+  | advance n => exact fx_onAdvance hq.toWakeQuiet _ _
 
 end
 end TarpcModel.Server.ObsMon
